@@ -82,6 +82,18 @@ type Node struct {
 	// filled by the printer
 	File string `json:"-"`
 	Line int    `json:"-"`
+	// effective text of a text node after trim markers of neighbouring actions were applied;
+	// adjacent text nodes form one run whose text is carried by the first node
+	eff    string
+	hasEff bool
+}
+
+// EffText is what a text node contributes to the output (after trimming).
+func (n *Node) EffText() string {
+	if n.hasEff {
+		return n.eff
+	}
+	return n.Text
 }
 
 type File struct {
